@@ -24,7 +24,8 @@ import (
 //      an accumulator, optionally from a nested loop over a slice) into a slice
 //      whose first use after the loop is a sort that is total on the key;
 //  (b) commutative body: integer counting, insertion into a map under the
-//      range key itself, delete, boolean or/and.
+//      range key itself, delete, boolean or/and;
+//  (c) extremum of the keys: a single "if [!found ||] key < best { best = key … }".
 // Anything else is reported with the first offending statement.
 // ---------------------------------------------------------------------------
 
@@ -137,6 +138,9 @@ func classifyMapRange(p *core.Program, site mapRangeSite) (core.Verdict, string,
 		}
 		return true
 	})
+	if msg, ok := s.extremumOfKeys(body); ok {
+		return core.Discharged, msg, site.stmt.Pos()
+	}
 	s.stmts(body.List, 0)
 	if s.reason != "" {
 		return core.Violated, s.reason, s.reasonP
@@ -157,6 +161,101 @@ func classifyMapRange(p *core.Program, site mapRangeSite) (core.Verdict, string,
 		msgs = append(msgs, msg)
 	}
 	return core.Discharged, "collect-then-sort: " + strings.Join(msgs, "; "), site.stmt.Pos()
+}
+
+// extremumOfKeys accepts idiom (c): the body is a single
+//
+//	if [!found ||] key < best { best = key [; found = true] [; bestVal = value] }
+//
+// (any of < > <= >=, operands in either order). The keys of a map are distinct,
+// so the smallest/largest key — and the value stored under it — is the same
+// whatever the iteration order.
+func (s *mrState) extremumOfKeys(body *ast.BlockStmt) (string, bool) {
+	if s.keyObj == nil || len(body.List) != 1 {
+		return "", false
+	}
+	ifs, ok := body.List[0].(*ast.IfStmt)
+	if !ok || ifs.Init != nil || ifs.Else != nil {
+		return "", false
+	}
+	if b, ok := s.keyObj.Type().Underlying().(*types.Basic); !ok || b.Info()&types.IsOrdered == 0 {
+		return "", false
+	}
+	var best, flag types.Object
+	cmp := func(e ast.Expr) bool {
+		be, ok := ast.Unparen(e).(*ast.BinaryExpr)
+		if !ok {
+			return false
+		}
+		switch be.Op {
+		case token.LSS, token.GTR, token.LEQ, token.GEQ:
+		default:
+			return false
+		}
+		l, r := objOf(s.info, be.X), objOf(s.info, be.Y)
+		switch {
+		case l == s.keyObj && r != nil && r != s.keyObj && !s.declaredInside(r):
+			best = r
+		case r == s.keyObj && l != nil && l != s.keyObj && !s.declaredInside(l):
+			best = l
+		default:
+			return false
+		}
+		return true
+	}
+	notFlag := func(e ast.Expr) bool {
+		ue, ok := ast.Unparen(e).(*ast.UnaryExpr)
+		if !ok || ue.Op != token.NOT {
+			return false
+		}
+		o := objOf(s.info, ue.X)
+		if o == nil || s.declaredInside(o) {
+			return false
+		}
+		if b, ok := o.Type().Underlying().(*types.Basic); !ok || b.Info()&types.IsBoolean == 0 {
+			return false
+		}
+		flag = o
+		return true
+	}
+	cond := ast.Unparen(ifs.Cond)
+	if be, ok := cond.(*ast.BinaryExpr); ok && be.Op == token.LOR {
+		if !(notFlag(be.X) && cmp(be.Y)) && !(cmp(be.X) && notFlag(be.Y)) {
+			return "", false
+		}
+	} else if !cmp(cond) {
+		return "", false
+	}
+	assignedBest := false
+	for _, st := range ifs.Body.List {
+		as, ok := st.(*ast.AssignStmt)
+		if !ok || as.Tok != token.ASSIGN || len(as.Lhs) != len(as.Rhs) {
+			return "", false
+		}
+		for i := range as.Lhs {
+			lo := objOf(s.info, as.Lhs[i])
+			if _, isIdent := ast.Unparen(as.Lhs[i]).(*ast.Ident); !isIdent || lo == nil {
+				return "", false
+			}
+			ro := objOf(s.info, as.Rhs[i])
+			switch {
+			case lo == best && ro == s.keyObj:
+				assignedBest = true
+			case flag != nil && lo == flag:
+				if id, ok := ast.Unparen(as.Rhs[i]).(*ast.Ident); !ok || id.Name != "true" {
+					return "", false
+				}
+			case s.valObj != nil && ro == s.valObj && lo != best && lo != s.keyObj && !s.declaredInside(lo):
+				// the value stored under the extremal key
+			default:
+				return "", false
+			}
+		}
+	}
+	if !assignedBest {
+		return "", false
+	}
+	return "extremum of the keys: keys are distinct, so the selected key (and its value) does not depend on the iteration order", true
 }
 
 func (s *mrState) noteWrite(lhs ast.Expr, body *ast.BlockStmt) {
@@ -759,8 +858,10 @@ func (s *mrState) totalKeySort(call *ast.CallExpr, ci *collectInfo, shape keySha
 }
 
 // comparatorTotalOnKey accepts less(i,j) bodies of the forms
-//   return S[i].K < S[j].K                     (or >, or S[i] < S[j] for key slices)
-//   if S[i].V != S[j].V { return S[i].V < S[j].V }; return S[i].K < S[j].K
+//
+//	return S[i].K < S[j].K                     (or >, or S[i] < S[j] for key slices)
+//	if S[i].V != S[j].V { return S[i].V < S[j].V }; return S[i].K < S[j].K
+//
 // where K is the key field. A comparator on a non-key field alone keeps the
 // map's order among equal values (C05-R2).
 func comparatorTotalOnKey(info *types.Info, lit *ast.FuncLit, slice types.Object, shape keyShape) (bool, string) {
